@@ -51,7 +51,7 @@ theorem started_iff_no_start_fault (c : Cfg) (r : Result) (h : runForever c = so
 theorem async_before_sync (c : Cfg) (r : Result) (h : runForever c = some r) :
     ∃ pre post, r.trace = pre ++ post ∧
       (∀ k, Ev.stop k ∈ pre → (blk c.blocks k).asyncStop = true) ∧
-      (∀ e ∈ post, (∃ k, e = .stop k ∧ (blk c.blocks k).asyncStop = false) ∨ ∃ k, e = .out k true) := by
+      (∀ e ∈ post, (∃ k, e = .stop k ∧ (blk c.blocks k).asyncStop = false) ∨ ∃ k b, e = .out k b) := by
   cases hb : c.cause.before with
   | true =>
     obtain ⟨h1, _⟩ := nothing_started_when_aborted_before c r h hb
@@ -73,11 +73,11 @@ theorem async_before_sync (c : Cfg) (r : Result) (h : runForever c = some r) :
       simp only [setA, List.mem_filter] at this
       exact this.2
     · intro e he
-      rcases stopSyncAll_mem _ _ _ e he with ⟨k, hk, rfl⟩ | ⟨k, _, rfl⟩
+      rcases stopSyncAll_mem _ _ _ e he with ⟨k, hk, rfl⟩ | ⟨k, b, rfl⟩
       · have := (sp.permS.mem_iff).1 hk
         simp only [setS, List.mem_filter, Bool.not_eq_true'] at this
         exact .inl ⟨k, rfl, this.2⟩
-      · exact .inr ⟨k, rfl⟩
+      · exact .inr ⟨k, b, rfl⟩
 
 /-- `stop_async_awaited_bounded` (1): stop_async is begun and ended exactly once for exactly the
     started blocks with asynchronous clean-up, after all their stop() calls (`pre` holds them,
@@ -165,7 +165,7 @@ theorem save_step_total (c : Cfg) (r : Result) (h : runForever c = some r) (hb :
   unfold runForever at h
   simp only [hb, Bool.false_eq_true, if_false] at h
   unfold finish at h
-  simp only [consumePending, Bool.false_and, Bool.false_eq_true, if_false] at h
+  simp only [consumePending, second_any_false, Bool.or_false, Bool.false_and, Bool.false_eq_true, if_false] at h
   split at h
   · simp at h
   · simp only [Option.some.injEq] at h
@@ -191,7 +191,7 @@ theorem storage_fault_irrelevant (c : Cfg) (r : Result) (h : runForever c = some
     simp only [hb, Bool.false_eq_true, if_false] at h ⊢
     rw [hp]
     unfold finish at h ⊢
-    simp only [consumePending, Bool.false_and, Bool.false_eq_true, if_false] at h ⊢
+    simp only [consumePending, second_any_false, Bool.or_false, Bool.false_and, Bool.false_eq_true, if_false] at h ⊢
     split at h
     · simp at h
     · next hperm =>
@@ -219,7 +219,7 @@ theorem helper_lives_no_longer_than_call (c : Cfg) (r : Result) (h : runForever 
   | false =>
     simp only [hb, Bool.false_eq_true, if_false] at h
     unfold finish at h
-    simp only [consumePending, Bool.false_and, Bool.false_eq_true, if_false] at h
+    simp only [consumePending, second_any_false, Bool.or_false, Bool.false_and, Bool.false_eq_true, if_false] at h
     split at h
     · simp at h
     · simp only [Option.some.injEq] at h
@@ -235,12 +235,19 @@ theorem helper_lives_no_longer_than_call (c : Cfg) (r : Result) (h : runForever 
         simp only [helperSpanOf] at hab
         cases hw : c.waiter <;> cases hi : (plan c).initEnd <;> simp [hw, hi] at hab <;> omega
 
-/-- `stop_data_last` (OutputFunc): for a started OutputFunc block with stop_data the calls of its
-    output function end with the stop_data call, and that is the only stop_data call – for every
-    fault script, cause and stop order -/
-theorem stop_data_last (c : Cfg) (r : Result) (h : runForever c = some r) (hb : c.cause.before = false)
+/-
+Full statement: the same without `hno`.  It is FALSE for the code (known finding
+C08-outputfunc-event-after-stop, mirrored by the model's `chain`): when another OutputFunc `j` with
+stop_data has `on_success = Event(k)` and `k` is stopped before `j`, `k`'s function is called with the
+result of `j`'s stop_data after `k`'s own stop_data -- see `stop_data_not_last_in_a_chain` below.
+-/
+/-- `stop_data_last` (OutputFunc): for a started OutputFunc block with stop_data that is not the
+    destination of another stop_data OutputFunc's on_success event (`NoStopDataSender`), the calls of
+    its output function end with the stop_data call, and that is the only stop_data call – for
+    every fault script, cause and stop order -/
+theorem stop_data_last_partial (c : Cfg) (r : Result) (h : runForever c = some r) (hb : c.cause.before = false)
     (k : Nat) (hk : k ∈ r.started) (hf : (blk c.blocks k).kind = .outf)
-    (hsd : (blk c.blocks k).stopData = true) :
+    (hsd : (blk c.blocks k).stopData = true) (hno : NoStopDataSender c.blocks k) :
     ∃ pre, outsOf k r.trace = pre ++ [true] ∧ ∀ x ∈ pre, x = false := by
   have sp := run_spec c r h hb
   obtain ⟨ks, hks, _⟩ := plan_puts c
@@ -256,7 +263,47 @@ theorem stop_data_last (c : Cfg) (r : Result) (h : runForever c = some r) (hb : 
   rw [sp.trace, stopSblocks_trace, hks, plan_startEvs]
   simp only [outsOf_append, (startLoop_stops 0 c.blocks).2.2.2 k, outsOf_seg1, outsOf_seg3, outsOf_seg4,
     outsOf_seg2_ne c.blocks (plan c).inited c.oa k (by rw [hf]; decide), List.nil_append, List.append_nil]
-  rw [seg5, outsOf_stopSyncAll_mem _ _ _ k hnd hmem hf hsd]
+  rw [seg5, outsOf_stopSyncAll_mem _ _ _ k hnd hmem hf hsd hno]
+
+/-- … and the known finding, as the model has it: OutputFunc 1 (stop_data, on_success -> block 0),
+    OutputFunc 0 (stop_data) stopped first: block 0's function is called once more after its stop_data -/
+example : ∃ r, runForever
+    { blocks := [{ kind := .outf, stopData := true }, { kind := .outf, stopData := true, onSuccess := some 0 }],
+      cause := { kind := .shutdown, time := 205 }, oa := [], os := [0, 1] } = some r ∧
+    outsOf 0 r.trace = [false, false, true, false] ∧ stops r.trace = [0, 1] := by
+  refine ⟨_, rfl, ?_⟩
+  decide +kernel
+
+/-- `caller_cancel_does_not_reach_cleanup`: a SECOND termination cause that arrives while the
+    clean-up is in progress – the task awaiting `shutdown()` is cancelled (directly, or by `run()`
+    because another supporting coroutine returned or failed), `abort()`, SIGTERM, another
+    `shutdown()` – at whatever instant, changes nothing of the run: the clean-up plan is the same,
+    hence (`stop_exactly_started`) every started block is still stopped exactly once.  The reason is
+    `Second.cancelsSimtask`: none of them cancels the simulation task (the repaired `shutdown()`
+    does not forward its caller's cancellation: `translated_errreg_shutdown_caller_cancel_not_forwarded`) -/
+theorem caller_cancel_does_not_reach_cleanup (c : Cfg) (x : Option (Second × Nat)) :
+    runForever { c with cause := { c.cause with second := x } } = runForever c ∧
+    ∀ r, runForever { c with cause := { c.cause with second := x } } = some r →
+      (stops r.trace).Perm (starteds r.trace) := by
+  have hp : plan { c with cause := { c.cause with second := x } } = plan c := rfl
+  have h1 : runForever { c with cause := { c.cause with second := x } } = runForever c := by
+    unfold runForever
+    simp only [hp]
+    cases c.cause.before
+    · simp only [Bool.false_eq_true, if_false]
+      unfold finish
+      simp only [second_any_false]
+      rfl
+    · rfl
+  exact ⟨h1, fun r hr => (stop_exactly_started _ r hr).1⟩
+
+/-- non-vacuity: the caller of shutdown() is cancelled 52 ms into a clean-up that takes 200 ms -/
+example : ∃ r, runForever
+    { blocks := [{ kind := .aplain, stopDur := 200, stopTimeout := 1003 }, {}],
+      cause := { kind := .shutdown, time := 205, second := some (.callerCancel, 52) }, oa := [0], os := [1] } = some r ∧
+    stops r.trace = [0, 1] ∧ r.endTime = 405 ∧ r.tasks = [] := by
+  refine ⟨_, rfl, ?_⟩
+  decide +kernel
 
 /-- `no_restart_no_modify`: when run_forever has finished – for whatever reason – the
     simulation task is done and `_error` is set: a second run_forever() and any modification of
@@ -426,6 +473,200 @@ example : ∃ r, runForever exSave = some r ∧ r.phase = .initFailed ∧ r.stor
   refine ⟨_, rfl, ?_⟩
   decide +kernel
 
+/-! ### the repaired `_run_tasks` waits for the tasks it cancels
+    (patches/C08-run-tasks-awaits-cancelled.diff) -/
+
+theorem atCancel_time_le (L T : Nat) (x : Job) : (Job.atCancel L T x).time ≤ max L T := by
+  rw [LifecycleTie.atCancel_time]
+  split
+  · next hd => have := doneBy_time x L hd; omega
+  · exact Nat.min_le_left _ _
+
+/-- a cancelled loop: which job was being awaited, and when the loop ends -/
+theorem awaitJobs_cancel_shape (limit : Option Nat) (T now : Nat) (js : List Job)
+    (h : (awaitJobs limit T now js).2.2 = true) :
+    ∃ l j, limit = some l ∧ j ∈ js ∧
+      (⟨j.k, l + j.cdur, .cancelled⟩ : JobEnd) ∈ (awaitJobs limit T now js).1 ∧
+      l + j.cdur ≤ (awaitJobs limit T now js).2.1 ∧
+      (awaitJobs limit T now js).2.1 ≤ max (l + j.cdur) T := by
+  induction js generalizing now with
+  | nil => simp [awaitJobs] at h
+  | cons j js ih =>
+    unfold awaitJobs at h ⊢
+    split at h
+    · next hd =>
+      obtain ⟨l, x, h1, h2, h3, h4⟩ := ih _ h
+      simp only [hd, if_true]
+      exact ⟨l, x, h1, by simp [h2], by simp [h3], h4⟩
+    · next hnd =>
+      simp only [hnd, if_false, Bool.false_eq_true]
+      cases hc : cancelledBefore limit (j.wake now).1 with
+      | some l =>
+        refine ⟨l, j, (LifecycleTie.cancelledBefore_some hc).1, by simp, by simp, ?_, ?_⟩
+        · simp only [LifecycleTie.lastEnd_map]
+          exact LifecycleTie.foldl_max_ge _ _ _
+        · simp only [LifecycleTie.lastEnd_map]
+          exact LifecycleTie.foldl_max_le _ _ _ _ (Nat.le_max_left _ _) (fun x _ => atCancel_time_le _ _ x)
+      | none =>
+        simp only [hc] at h
+        obtain ⟨l, x, h1, h2, h3, h4⟩ := ih _ h
+        exact ⟨l, x, h1, by simp [h2], by simp [h3], h4⟩
+
+/-- nothing ends after a cancelled loop has ended -/
+theorem awaitJobs_cancel_times (limit : Option Nat) (T now : Nat) (js : List Job)
+    (hlim : ∀ l, limit = some l → now ≤ l)
+    (h : (awaitJobs limit T now js).2.2 = true) :
+    now ≤ (awaitJobs limit T now js).2.1 ∧
+      ∀ e ∈ (awaitJobs limit T now js).1, e.time ≤ (awaitJobs limit T now js).2.1 := by
+  induction js generalizing now with
+  | nil => simp [awaitJobs] at h
+  | cons j js ih =>
+    unfold awaitJobs at h ⊢
+    split at h
+    · next hd =>
+      obtain ⟨h1, h2⟩ := ih _ hlim h
+      simp only [hd, if_true]
+      refine ⟨h1, ?_⟩
+      intro e he
+      simp only [List.mem_cons] at he
+      rcases he with rfl | he
+      · have := doneBy_time j now hd; simp only; omega
+      · exact h2 e he
+    · next hnd =>
+      have hnd' : j.doneBy now = false := by simpa using hnd
+      have hge := LifecycleTie.wake_ge j now hnd'
+      simp only [hnd, if_false, Bool.false_eq_true]
+      cases hc : cancelledBefore limit (j.wake now).1 with
+      | some l =>
+        simp only [LifecycleTie.lastEnd_map]
+        have hL : l + j.cdur ≤ js.foldl (fun m x => max m (Job.atCancel (l + j.cdur) T x).time) (l + j.cdur) :=
+          LifecycleTie.foldl_max_ge _ _ _
+        have hl := hlim l (LifecycleTie.cancelledBefore_some hc).1
+        refine ⟨by omega, ?_⟩
+        · intro e he
+          simp only [List.mem_cons, List.mem_map] at he
+          rcases he with rfl | ⟨x, hx, rfl⟩
+          · exact hL
+          · exact LifecycleTie.foldl_max_mem (fun x => (Job.atCancel (l + j.cdur) T x).time) js _ x hx
+      | none =>
+        simp only [hc] at h
+        obtain ⟨h1, h2⟩ := ih _ (LifecycleTie.cancelledBefore_none hc) h
+        dsimp only
+        refine ⟨by omega, ?_⟩
+        intro e he
+        simp only [List.mem_cons] at he
+        rcases he with rfl | he
+        · exact h1
+        · exact h2 e he
+
+/-- no task is left pending if a cancelled task ends at once -/
+theorem awaitJobs_no_pending (limit : Option Nat) (T now : Nat) (js : List Job)
+    (h0 : ∀ j ∈ js, j.cdur = 0) : ∀ e ∈ (awaitJobs limit T now js).1, e.res ≠ .pending := by
+  have hfin : ∀ j : Job, j.fin ≠ .pending := by intro j; unfold Job.fin; split <;> simp
+  induction js generalizing now with
+  | nil => simp [awaitJobs]
+  | cons j js ih =>
+    have ih' := fun now => ih now (fun x hx => h0 x (by simp [hx]))
+    unfold awaitJobs
+    split
+    · intro e he
+      simp only [List.mem_cons] at he
+      rcases he with rfl | he
+      · exact hfin j
+      · exact ih' _ e he
+    · cases hc : cancelledBefore limit (j.wake now).1 with
+      | some l =>
+        intro e he
+        simp only [List.mem_cons, List.mem_map] at he
+        rcases he with rfl | ⟨x, hx, rfl⟩
+        · simp
+        · have hx0 : x.cdur = 0 := h0 x (by simp [hx])
+          unfold Job.atCancel Job.cancelEnd
+          have hle : l + j.cdur + x.cdur ≤ max (l + j.cdur) T := by omega
+          cases hxd : x.dur with
+          | none => simp only [hle, if_true]; simp
+          | some d =>
+            simp only [hle, if_true]
+            split
+            · exact hfin x
+            · simp
+      | none =>
+        intro e he
+        simp only [List.mem_cons] at he
+        rcases he with rfl | he
+        · rcases LifecycleTie.wake_res j now with hw | ⟨_, hw⟩
+          · simp [hw]
+          · simp only [hw]; exact hfin j
+        · exact ih' _ e he
+
+/-- **the cancelled tasks are awaited**: when `_run_tasks` is cancelled, nothing – cancelled,
+    pending or ended before – has an end later than the instant `_run_tasks` itself ends (the
+    instant the CancelledError leaves it), and no task is left running behind (`.pending`) if the
+    cancelled tasks end at once (`cdur = 0`, i.e. no `await` in their clean-up).  In general a task
+    is `.pending` exactly when its `cdur` does not fit into the longest time-out (`Job.cancelEnd`):
+    the wait is bounded, see `cancelled_run_tasks_bounded`. -/
+theorem cancelled_jobs_are_awaited (limit : Option Nat) (js : List Job)
+    (h : (runTasks limit js).2.2 = true) :
+    (∀ e ∈ (runTasks limit js).1, e.time ≤ (runTasks limit js).2.1) ∧
+    ((∀ j ∈ js, j.cdur = 0) → ∀ e ∈ (runTasks limit js).1, e.res ≠ .pending) := by
+  refine ⟨(awaitJobs_cancel_times limit _ 0 _ (fun l _ => Nat.zero_le l) h).2, ?_⟩
+  intro h0
+  exact awaitJobs_no_pending limit _ 0 _ (fun j hj => h0 j ((sortJobs_perm js).mem_iff.1 hj))
+
+/-- **the wait is bounded**: a `_run_tasks` cancelled at `l` was awaiting some job `j`, which ends
+    at `l + j.cdur`; `_run_tasks` ends then or later, but not later than the longest time-out
+    (counted from the creation of the tasks) -/
+theorem cancelled_run_tasks_bounded (l : Nat) (js : List Job)
+    (h : (runTasks (some l) js).2.2 = true) :
+    ∃ j ∈ js, (⟨j.k, l + j.cdur, .cancelled⟩ : JobEnd) ∈ (runTasks (some l) js).1 ∧
+      l + j.cdur ≤ (runTasks (some l) js).2.1 ∧
+      (runTasks (some l) js).2.1 ≤ max (l + j.cdur) (deadline (sortJobs js)) := by
+  obtain ⟨l', j, h1, h2, h3, h4, h5⟩ := awaitJobs_cancel_shape (some l) _ 0 _ h
+  simp only [Option.some.injEq] at h1
+  subst h1
+  exact ⟨j, (sortJobs_perm js).mem_iff.1 h2, h3, h4, h5⟩
+
+/-- three init tasks, `_run_tasks` cancelled at 2 while awaiting task 0 (time-out 9): task 0 needs 1
+    to finish, then task 1 (cancelled at 3) needs 4 and task 2 needs 20 – more than the longest
+    time-out allows: `_run_tasks` ends at 9 with task 2 still pending -/
+def exJobs : List Job :=
+  [⟨0, some 5, 9, true, 1⟩, ⟨1, none, 6, true, 4⟩, ⟨2, some 8, 3, true, 20⟩]
+
+theorem exJobs_sorted : sortJobs exJobs = exJobs := by
+  unfold sortJobs; exact List.mergeSort_of_pairwise (by decide)
+
+example : runTasks (some 2) exJobs =
+    ([⟨0, 3, .cancelled⟩, ⟨1, 7, .cancelled⟩, ⟨2, 9, .pending⟩], 9, true) := by
+  rw [runTasks, exJobs_sorted]; decide +kernel
+
+theorem exJobs_cancelled : (runTasks (some 2) exJobs).2.2 = true := by
+  rw [runTasks, exJobs_sorted]; decide +kernel
+
+/-- `cancelled_jobs_are_awaited` is not vacuous: its hypothesis holds for `exJobs` -/
+example : ∀ e ∈ (runTasks (some 2) exJobs).1, e.time ≤ (runTasks (some 2) exJobs).2.1 :=
+  (cancelled_jobs_are_awaited (some 2) exJobs exJobs_cancelled).1
+
+/-- `cancelled_run_tasks_bounded` is not vacuous -/
+example : ∃ j ∈ exJobs, (runTasks (some 2) exJobs).2.1 ≤ max (2 + j.cdur) (deadline (sortJobs exJobs)) := by
+  obtain ⟨j, hj, _, _, h⟩ := cancelled_run_tasks_bounded 2 exJobs exJobs_cancelled
+  exact ⟨j, hj, h⟩
+
+/-- … and with tasks that end at once when cancelled everything is over at the instant of the
+    cancellation, nothing is pending -/
+def exJobs0 : List Job :=
+  [⟨0, some 5, 9, true, 0⟩, ⟨1, none, 6, true, 0⟩, ⟨2, some 8, 3, true, 0⟩]
+
+theorem exJobs0_sorted : sortJobs exJobs0 = exJobs0 := by
+  unfold sortJobs; exact List.mergeSort_of_pairwise (by decide)
+
+example : runTasks (some 2) exJobs0 =
+    ([⟨0, 2, .cancelled⟩, ⟨1, 2, .cancelled⟩, ⟨2, 2, .cancelled⟩], 2, true) := by
+  rw [runTasks, exJobs0_sorted]; decide +kernel
+
+example : ∀ e ∈ (runTasks (some 2) exJobs0).1, e.res ≠ .pending :=
+  (cancelled_jobs_are_awaited (some 2) exJobs0 (by rw [runTasks, exJobs0_sorted]; decide +kernel)).2
+    (by decide)
+
 end Edzed.Lifecycle
 
 /-!
@@ -445,15 +686,18 @@ open Edzed Edzed.Lifecycle Edzed.LifecycleTie Edzed.Gen Edzed.Gen.TrD
     freshly created tasks (`limit` = the instant at which the awaiting task is cancelled, if ever)
     it ends at the same instant, every task has the fate the model gives it (returned / raised /
     cancelled by its time-out with the remaining-time expression `timeout - get_time() + start_time`
-    / cancelled together with `_run_tasks`, the OTHER unfinished tasks included), and it re-raises the
-    CancelledError exactly when the model's loop is cancelled, otherwise returns -/
+    / cancelled together with `_run_tasks`, the OTHER unfinished tasks included, which are then WAITED
+    FOR – `asyncio.wait(<all tasks>, timeout=btt_list[0][2] - get_time() + start_time)` after the
+    cancel loop and before the `raise`: each ends `cdur` after its cancellation or is `.pending` at the
+    bound), and it re-raises the CancelledError exactly when the model's loop is cancelled, otherwise
+    returns -/
 theorem translated_lifecycle_run_tasks_is_model (limit : Option Nat) (js : List Job)
     (hnd : (js.map (·.k)).Nodup) :
     ∃ s' o, TrL.runTasks (rtPrims limit) js ⟨0, fun _ => none⟩ = (s', o) ∧
-      s'.now = (awaitJobs limit 0 (sortJobs js)).2.1 ∧
-      (sortJobs js).map (fateOf s') = (awaitJobs limit 0 (sortJobs js)).1 ∧
-      ((awaitJobs limit 0 (sortJobs js)).2.2 = true → o = .raise .cancelled) ∧
-      ((awaitJobs limit 0 (sortJobs js)).2.2 = false → o = .next ()) :=
+      s'.now = (runTasks limit js).2.1 ∧
+      (sortJobs js).map (fateOf s') = (runTasks limit js).1 ∧
+      ((runTasks limit js).2.2 = true → o = .raise .cancelled) ∧
+      ((runTasks limit js).2.2 = false → o = .next ()) :=
   runTasks_spec limit js hnd
 
 /-- `_stop_sblocks` IS the model's `stopSblocks`: the asynchronous set is `has stop_async ∧
